@@ -262,6 +262,18 @@ pub fn knobs(profile: &str, thorough: bool, rng: &mut Rng) -> Knobs {
             with_weak(rng, &mut kn, false);
             kn.max_mult = 1 + rng.below(4);
             dense_hub(rng, &mut kn, thorough, 10);
+            // records must also disappear when an object dies or is given up while some
+            // of its peers' records are stale (a forgotten unadopt) ...
+            if rng.chance(1, 5) {
+                kn.elide_p = 1 + rng.below(3) as u32;
+            }
+            // ... or when its allocation is given up by try_unwrap / make_mut
+            if rng.chance(1, 4) {
+                set_w(&mut kn, K::TryUnwrap, 3);
+                set_w(&mut kn, K::MakeMut, 3);
+                set_w(&mut kn, K::SlotMakeMut, 2);
+                set_w(&mut kn, K::DropValue, 2);
+            }
         }
         "C09" => {
             kn.adopt_p = 8;
